@@ -5,6 +5,8 @@ import json
 import os
 import signal
 import sys
+
+sys.setrecursionlimit(12000)   # programs are deeply nested lists (json, S-expressions)
 import traceback
 
 sys.path.insert(0, os.path.dirname(os.path.abspath(__file__)))
